@@ -8,6 +8,7 @@ import (
 	"fmt"
 	"math"
 	"sort"
+	"strings"
 	"sync"
 	"sync/atomic"
 	"time"
@@ -56,6 +57,7 @@ type Options struct {
 	Seed    uint64        // scheduler seed
 	Settle  time.Duration // scheduler settle delay (default 100µs)
 	StartMs int64         // initial physical clock (default 1000)
+	Control Chooser       // controlled (exhaustive) mode: the chooser decides every scheduling step; Begin becomes a gated event
 	Full    *LeanProc     // profile `full`: KV commands are executed by this cgv-full server instead of mocktikv's MVCC store
 	MaxRPCs int           // RPC budget of the scenario (default 2000): beyond it the scenario is reported as hung
 }
@@ -80,6 +82,7 @@ type World struct {
 	clients []*Client
 	keys    map[string]bool // every key the scenario touched through the API (for audit mvcc)
 	hung    bool
+	cut     bool // controlled mode: the schedule was cut at a livelock (guarded by rec.mu)
 }
 
 // NewWorld emits `# case n` + `reset` and builds the world.
@@ -311,6 +314,7 @@ type Client struct {
 	baseWG  int
 	crashed atomic.Bool
 	inCall  atomic.Int32
+	running atomic.Bool
 	calls   int
 	rpcs    atomic.Int64 // number of RPCs of this client released by the scheduler
 
@@ -455,6 +459,28 @@ func (w *World) auditLocked() {
 	}
 }
 
+func wgCount(c *Client) int { return tikv.VerifWGCount(c.store) }
+
+// fingerprintLocked is the store state of the tracked keys (trace lock held): dump of every tracked key.
+func (w *World) fingerprintLocked() string {
+	w.cmu.Lock()
+	keys := make([]string, 0, len(w.keys))
+	for k := range w.keys {
+		keys = append(keys, k)
+	}
+	w.cmu.Unlock()
+	sort.Strings(keys)
+	var b []string
+	for _, k := range keys {
+		if w.lean != nil {
+			b = append(b, w.lean.proc.Ask("dump "+Hx([]byte(k))))
+		} else {
+			b = append(b, mocktikv.VerifDumpKey(w.mvcc, []byte(k), Hx))
+		}
+	}
+	return strings.Join(b, ";")
+}
+
 // AuditNoLocks emits `audit nolocks <startTS>` for every transaction of the client (C02/C03: after recovery no lock of the
 // crashed / faulted client's transactions may remain).
 func (w *World) AuditNoLocks(c *Client) {
@@ -475,6 +501,9 @@ func (w *World) Hang(what string) {
 	}
 	w.rec.mu.Unlock()
 }
+
+// WasCut reports whether the controlled scheduler cut the schedule at a livelock.
+func (w *World) WasCut() bool { w.rec.mu.Lock(); defer w.rec.mu.Unlock(); return w.cut }
 
 func (w *World) Hung() bool { w.rec.mu.Lock(); defer w.rec.mu.Unlock(); return w.hung }
 
